@@ -39,7 +39,7 @@ def dispatch (c : Conf) (op : String) (args : List String) (got : String) : Opti
     | some e => C02.handle e op args got
     | none => none) <|> (match c.ep with
     | some e => C03.handle e c.w op args got
-    | none => none) <|> (C07.handle e01.cfg op args) <|> (C09.handle c.w c.size c.digs op args got) <|> (C14.handle op args) <|> (C15.handle c.w c.size op args got) <|> (C19.handle latch op args) <|> (C20.handle c.ep c.w op args got)
+    | none => none) <|> (C07.handle e01.cfg op args) <|> (C09.handle c.w c.size c.digs op args got) <|> (C14.handle op args) <|> (C15.handle c.w c.size op args got) <|> (C19.handle latch op args) <|> (C20.handle c.ep c.w op args got) <|> (C18.handle c.ep c.w op args got)
 
 def processLine (c : Conf) (line : String) : String :=
   match line.splitOn " => " with
@@ -77,7 +77,7 @@ partial def loop (h : IO.FS.Stream) (out : IO.FS.Stream) (c : Conf) : IO Unit :=
     | [_, got] =>
       match C03.parseEnv got with
       | some e =>
-        let bad := C03.checkParam e ++ C18.checkAgainstTable e
+        let bad := C03.checkParam e ++ C18.checkAgainstTable e ++ C18.checkEndom e
         out.putStrLn (if bad.isEmpty then "ok ep_param" else "FAIL S model=[] spec=[" ++ String.intercalate ";" bad ++ "] got=[" ++ got ++ "]")
         -- the field context follows the curve selection
         let fpEnv : Option C02.Env := C02.parseEnv c.w ("digs=" ++ toString ((Nat.log2 e.c.p) / c.w + 1) ++ " p=" ++ natToHex e.c.p ++ " u=0 conv=0 qnr=0 cnr=0")
